@@ -2,6 +2,7 @@ package main
 
 import (
 	"fmt"
+	"strings"
 
 	"verif/mc"
 )
@@ -81,6 +82,19 @@ func c02Scenarios(tier string) []*Scenario {
 			add(tr, c, RPC{Kind: "cs", Client: []string{"S0", "C", "R*", "R"}, Handler: []string{"r*", "h:a", "s0", "t:b", "ret:ok"}})
 		}
 	}
+	// the handlers behind a middleware whose ResponseWriter has no Flush (the reply leaves when the handler returns)
+	for _, rpc := range []RPC{
+		{Kind: "unary", Client: []string{"I"}, Handler: []string{"dec", "ret:st:5"}},
+		{Kind: "ss", Client: []string{"S0", "C", "R*", "R"}, Handler: []string{"r", "s0", "ret:st:5"}},
+		{Kind: "ss", Client: []string{"S0", "C", "R*", "R"}, Handler: []string{"r", "s0", "s1", "ret:ok"}},
+		{Kind: "cs", Client: []string{"S0", "C", "R*", "R"}, Handler: []string{"r*", "s0", "ret:st:5"}},
+		{Kind: "bd", Client: []string{"S0", "C", "H", "R*", "R"}, Handler: []string{"r*", "h:a", "s0", "t:b", "ret:st:5"}},
+	} {
+		add("http", "", rpc)
+		sc := out[len(out)-1]
+		sc.Opts = "noflush"
+		sc.Name += "|env=noflush"
+	}
 	// Header() asked for by another goroutine while the receive is under way: the failure still reaches the receiver
 	for _, tr := range []string{"inproc", "http"} {
 		for _, ret := range []string{"ret:st:5", "ret:plain"} {
@@ -136,9 +150,15 @@ func c02Scenarios(tier string) []*Scenario {
 
 func c02Oracle(sc *Scenario, rec *Rec, s *mc.Sched) []mc.Violation {
 	out := panicViolations(s)
-	rr := rec.RPCs[0]
-	rpc := &sc.RPCs[0]
-	ref := refOf(0, rpc)
+	// scenarios that first run another call to completion (option "seq0": what the library keeps from one
+	// call is there for the next) are judged on their last call
+	j := 0
+	if strings.Contains(sc.Opts, "seq0") {
+		j = len(sc.RPCs) - 1
+	}
+	rr := rec.RPCs[j]
+	rpc := &sc.RPCs[j]
+	ref := refOf(j, rpc)
 	add := func(clause, obs string) { out = append(out, mc.Violation{Clause: clause, Obs: obs, Detail: rr}) }
 	complete := eqStrs(rr.CliRecv, ref.Msgs)
 	for k, res := range rr.RecvRes {
